@@ -238,6 +238,7 @@ class VM:
 
         self.start_time: Optional[float] = None
         self.instruction_count = 0
+        self.completion: JSValue = UNDEFINED  # completion value of program code
         self.native_depth = 0  # nesting of script code run from built-ins
         # call stack depth at entry of each nested run loop (innermost last)
         self._native_entry: List[int] = []
@@ -379,6 +380,12 @@ class VM:
         if op == OpCode.POP:
             if self.stack:
                 self.stack.pop()
+
+        elif op == OpCode.SET_COMPLETION:
+            self.completion = self.stack.pop()
+
+        elif op == OpCode.LOAD_COMPLETION:
+            self.stack.append(self.completion)
 
         elif op == OpCode.DUP:
             self.stack.append(self.stack[-1])
